@@ -172,28 +172,28 @@ Proof.
     subst x; cbn; tauto.
 Qed.
 
-Lemma parse_vp_cf : forall m p, parse_vp (JObj m) = Some p -> p_cf p = top_cf rawPresentation_fields m.
+Lemma parse_vp_cf : forall env m p, parse_vp env (JObj m) = Some p -> p_cf p = top_cf rawPresentation_fields m.
 Proof.
-  intros m p H. cbn in H. unfold bind in H.
+  intros env m p H. cbn [parse_vp] in H. unfold bind in H.
   repeat match type of H with
          | match ?e with _ => _ end = _ => destruct e; [|discriminate]
          end.
   inversion H. reflexivity.
 Qed.
 
-Lemma vp_custom_member : forall w m p k,
-  parse_vp (JObj m) = Some p ->
+Lemma vp_custom_member : forall w env m p k,
+  parse_vp env (JObj m) = Some p ->
   ~ In k (map (fun f => fst (fst f)) rawPresentation_fields) ->
   match marshal_vp w p with JObj o => lookup o k | _ => None end = option_map (fun x => f64j (f64j x)) (lookup m k).
 Proof.
-  intros w m p k Hp Hk. unfold marshal_vp. cbn [f64j].
+  intros w env m p k Hp Hk. unfold marshal_vp. cbn [f64j].
   rewrite lookup_f64j_obj. unfold merge_cf. rewrite lookup_app.
   rewrite (lookup_none_notin (raw_vp w p)).
   2:{ intro Hi. apply raw_vp_keys in Hi. apply Hk. cbn. cbn in Hi. tauto. }
   rewrite (lookup_filter (fun x => negb (mem x (keys (raw_vp w p))))).
   rewrite mem_false_notin.
   2:{ intro Hi. apply raw_vp_keys in Hi. apply Hk. cbn. cbn in Hi. tauto. }
-  cbn [negb]. rewrite (parse_vp_cf _ _ Hp). rewrite top_cf_lookup by exact Hk.
+  cbn [negb]. rewrite (parse_vp_cf _ _ _ Hp). rewrite top_cf_lookup by exact Hk.
   destruct (lookup m k); reflexivity.
 Qed.
 
